@@ -32,7 +32,7 @@ Qed.
 
 Lemma rem_exhausted t : rem t = 0 <-> exhausted t = true.
 Proof.
-  destruct t as [c e|c e|l|ts|ts k e|t e|t e s|t q e|t e|t e yl]; cbn [rem exhausted];
+  destruct t as [c e|c e|l|ts|ts k e|t e|t e s|t q e|t e|t e yl|cv t q e]; cbn [rem exhausted];
     try (destruct e; split; intro H; try reflexivity; try discriminate; fail).
   - destruct l; cbn; split; intro H; try reflexivity; discriminate.
   - destruct ts; split; intro H; try reflexivity; discriminate.
@@ -107,12 +107,17 @@ Section LoopsShown.
     destruct (nx t c) as [[r t'] c']. cbn [r_cache snd] in H.
     destruct (is_single_char p); rewrite IH; exact H.
   Qed.
+  Lemma settle_shown conv t c : map shown (snd (settle nx conv t c)) = map shown c.
+  Proof.
+    unfold settle. destruct (exhausted t); [reflexivity|].
+    pose proof (Hnx t c) as H. destruct (nx t c) as [[r t'] c']. exact H.
+  Qed.
 End LoopsShown.
 
 Lemma next_d_shown d : nx_shown (next_d d).
 Proof.
   induction d as [|d IH]; intros t c; [reflexivity|].
-  destruct t as [cd e|cd e|l|ts|ts k e|t e|t e s|t q e|t e|t e yl]; cbn [next_d].
+  destruct t as [cd e|cd e|l|ts|ts k e|t e|t e s|t q e|t e|t e yl|cv t q e]; cbn [next_d].
   - destruct e; reflexivity.
   - destruct e; reflexivity.
   - destruct l; reflexivity.
@@ -142,6 +147,14 @@ Proof.
       pose proof (uniquify_shown _ IH (S (rem t')) yl t' (exhausted t') c') as H2;
       destruct (uniquify (next_d d) (S (rem t')) yl t' (exhausted t') c') as [[[r1 t1] e1] c1] end.
     cbn [r_cache snd] in *. congruence.
+  - destruct e; [reflexivity|].
+    destruct q as [|x [|y q']].
+    + pose proof (IH t c) as H. destruct (next_d d t c) as [[r0 t'] c1]. cbn [r_cache snd] in H.
+      pose proof (settle_shown _ IH cv t' c1) as H2.
+      destruct (settle (next_d d) cv t' c1) as [t2 c2]. cbn [r_cache snd] in *. congruence.
+    + pose proof (settle_shown _ IH cv t c) as H2.
+      destruct (settle (next_d d) cv t c) as [t2 c2]. exact H2.
+    + reflexivity.
 Qed.
 
 Lemma next_d_len d t c : length (r_cache (next_d d t c)) = length c.
@@ -214,6 +227,20 @@ Section LoopsRem.
       + split; [left; exact IH|discriminate].
       + split; [right; lia|discriminate].
   Qed.
+  Lemma forms_of_length conv x : length (forms_of conv x) <= 6.
+  Proof.
+    unfold forms_of. destruct (conv x) as [[h tl]|]; [apply firstn_le_length|cbn; lia].
+  Qed.
+
+  Lemma settle_rem conv t c : rem (fst (settle nx conv t c)) <= 7 * rem t.
+  Proof.
+    unfold settle. destruct (exhausted t) eqn:E; [cbn; lia|].
+    destruct (Hnx t c) as [_ Hlt]. specialize (Hlt E).
+    destruct (nx t c) as [[r0 t'] c']. cbn [r_tr fst snd rem] in *.
+    assert (length (match peek t with Some x => forms_of conv x | None => [] end) <= 6).
+    { destruct (peek t); [apply forms_of_length|cbn; lia]. }
+    lia.
+  Qed.
 End LoopsRem.
 
 Lemma rsum_remove_at k ts x : nth_error ts k = Some x -> rsum (remove_at k ts) + S (rem x) = rsum ts.
@@ -281,7 +308,7 @@ Proof.
   induction d as [|d IH]; intros t c.
   { cbn. split; [lia|]. intro H. now apply rem_pos. }
   pose proof (nx_rem_alive _ IH) as Hal.
-  destruct t as [cd e|cd e|l|ts|ts k e|t e|t e s|t q e|t e|t e yl]; cbn [next_d].
+  destruct t as [cd e|cd e|l|ts|ts k e|t e|t e s|t q e|t e|t e yl|cv t q e]; cbn [next_d].
   - destruct e; cbn; split; try lia; discriminate.
   - destruct e; cbn; split; try lia; discriminate.
   - destruct l; cbn; split; try lia; discriminate.
@@ -337,4 +364,14 @@ Proof.
     destruct H2 as [H2|H2]; [discriminate|].
     destruct (exhausted t') eqn:E; [specialize (H3 eq_refl); discriminate|].
     specialize (Hal eq_refl). split; intros; lia.
+  - destruct e; [cbn; split; [lia|discriminate]|].
+    destruct q as [|x [|y q']].
+    + destruct (IH t c) as [Hle _]. destruct (next_d d t c) as [[r0 t'] c1]. cbn [r_tr fst snd] in Hle.
+      pose proof (settle_rem _ IH cv t' c1) as H2.
+      destruct (settle (next_d d) cv t' c1) as [t2 c2]. cbn [r_tr fst snd rem length] in *.
+      assert (0 < rem t \/ rem t = 0) as [G|G] by lia; [split; intros; lia|].
+      split; intros; lia.
+    + pose proof (settle_rem _ IH cv t c) as H2.
+      destruct (settle (next_d d) cv t c) as [t2 c2]. cbn [r_tr fst snd rem length] in *. split; intros; lia.
+    + cbn [r_tr fst snd rem length]. split; intros; lia.
 Qed.
